@@ -396,7 +396,61 @@ def force_boundaries(cases):
 INT_DTYPES = ["int64", "float64", "object"]
 
 
-def gen_sibling(rng):
+def required_cases():
+    """DETERMINISTIC stream (no randomness, every run, both tiers): everything sanity() demands -- all stypes incl.
+    the embedding family under every index labelling, both string dtypes, list / delimiter-joined cells with str / int
+    tokens, datetime64 with a configured format, unlabeled targets, every signature form (incl. the cache path),
+    every numeric backing and memory layout, and the boundaries (one-row frame, a time format matching no / exactly
+    one cell, a column missing but for one cell, embedding width 1, tied categories under every labelling)."""
+    kinds = ["range", "offset", "perm", "string", "dup"]
+    lay = [None] + M.RESTRIDES
+    out = []
+    for i in range(10):
+        tk = ["numerical", "categorical", "none"][i % 3]
+        fr, forms = M.template_frame(i, tk, ["first", None, None, "last"][i % 4] if tk != "none" else None, tokenized=False)
+        forms["path"] = (i % 4 == 0)
+        by = {c["name"]: c for c in fr["cols"]}
+        if i == 3:      # the configured format matches exactly one cell; the others are good dates in another layout
+            by["ts"]["cells"] = [[2020, 1, 2, 0, 0, 0], "02/01/2020", "31/12/1999", "garbage"]
+            by["ts"]["boundary"] = "format-matches-one"
+        if i == 4:
+            by["ts"]["cells"] = ["03/02/2021", "02/01/2020", None, "31/12/1999"]
+            by["ts"]["boundary"] = "format-matches-none"
+        if i == 5:
+            by["num"]["cells"] = [None, None, 3.0, None]
+            by["num"]["boundary"] = "all-missing-but-one"
+        out.append(dict(fr, index=kinds[i % 5], forms=forms, layout=lay[i % 5], family=True, required=True))
+    fr, forms = M.template_frame(1, "none", None, tokenized=False, n_rows=1)        # a one-row frame
+    out.append(dict(fr, index="offset", forms=forms, layout=None, family=True, required=True))
+    return out
+
+
+def required_siblings():
+    """every pair of integer representations (A's statistics held as x, B's column as y), features and a target"""
+    class Fixed:
+        """a deterministic stand-in for the PRNG: a fixed arithmetic sequence"""
+        def __init__(self, k): self.k = k
+        def _n(self): self.k = (self.k * 1103515245 + 12345) % (2 ** 31); return self.k
+        def randint(self, a, b): return a + self._n() % (b - a + 1)
+        def randrange(self, n): return self._n() % n
+        def random(self): return (self._n() % 10 ** 6) / 10 ** 6
+        def chance(self, p): return self.random() < p
+        def pick(self, seq): return seq[self._n() % len(seq)]
+        def sample(self, seq, k):
+            seq = list(seq); out = []
+            for _ in range(k):
+                out.append(seq.pop(self._n() % len(seq)))
+            return out
+        def shuffle(self, l):
+            for i in range(len(l) - 1, 0, -1):
+                j = self._n() % (i + 1); l[i], l[j] = l[j], l[i]
+    out = []
+    for k, (da, db) in enumerate([(a, b) for a in INT_DTYPES for b in INT_DTYPES]):
+        out.append(gen_sibling(Fixed(1000 + k), pair=(da, db), target=(k % 2 == 0)))
+    return out
+
+
+def gen_sibling(rng, pair=None, target=None):
     """A HISTORY: dataset A is materialized, then a sibling frame B with the same columns is encoded with A's
     statistics (materialize(col_stats=A.col_stats) and A.convert_to_tensor_frame(df_B)).  The integer-coded
     categorical columns (features and target) are held by pandas as int64, as float64 (the only way a numeric
@@ -408,8 +462,8 @@ def gen_sibling(rng):
     k = rng.randint(1, 3)
     for i in range(k):
         pool = rng.sample(range(-3, 12), rng.randint(2, 4))
-        is_target = (i == 0 and rng.chance(0.5))
-        da, db = rng.pick(INT_DTYPES), rng.pick(INT_DTYPES)
+        is_target = (i == 0 and (rng.chance(0.5) if target is None else target))
+        da, db = (rng.pick(INT_DTYPES), rng.pick(INT_DTYPES)) if pair is None or i > 0 else pair
         ca = [rng.pick(pool) for _ in range(na)]
         ca[0], ca[1] = pool[0], pool[1]                      # >= 2 classes in A
         if da != "int64" and not is_target:
@@ -515,7 +569,7 @@ def with_forms(case, rng):
 def generate(rng, tier):
     n = 420 if tier == "quick" else 6000
     cases = [boundary(vary(unlabel(G.gen_frame(rng, stypes=STYPES, target_missing=0.3), rng), rng), rng) for _ in range(n)]
-    cases = [with_forms(c, rng) for c in force_boundaries(cases)]
+    cases = required_cases() + required_siblings() + [with_forms(c, rng) for c in force_boundaries(cases)]
     cases += [with_forms(gen_large(rng, r), rng) for r in (LARGE_ROWS if tier == "quick" else LARGE_ROWS * 4)]
     cases += [gen_malformed(rng, MALFORMED_KINDS[i % len(MALFORMED_KINDS)]) for i in range(max(n // 16, 16))]
     cases += [gen_sibling(rng) for _ in range(n // 10)]
@@ -912,8 +966,9 @@ def stats(cases, obss):
                 d[k] = d.get(k, 0) + 1
             d["stypes"][col["stype"]] = d["stypes"].get(col["stype"], 0) + 1
             d["dtypes"][col["dtype"]] = d["dtypes"].get(col["dtype"], 0) + 1
-            d["cells"] += len(col["cells"])
-            d["missing_cells"] += sum(1 for x in col["cells"] if x is None)
+            if not c.get("large"):      # the share of missing cells is judged on the small frames
+                d["cells"] += len(col["cells"])
+                d["missing_cells"] += sum(1 for x in col["cells"] if x is None)
     return d
 
 
